@@ -499,11 +499,11 @@ pub fn run(eng: &Engine) {
     eng.set_rule("deterministic layer: valid frames (three sources), blind frames with a valid magic and concatenations, mutated by a format-aware mutator that knows the walker's field map (descriptor, window/size/id bytes, block headers, literals headers, tree descriptions, jump tables, sequence counts, mode bytes, table descriptions, last byte of bit streams, checksum) plus bit flips, truncation, extension, splicing and crossing with another frame; decoded through StreamingDecoder, decode_blocks (All/UptoBlocks/UptoBytes with collect/read/collect_to_writer or no drain), decode_from_to, decode_all, decode_all_to_vec, optionally with a mutated dictionary that still parses and with a caller-set window limit; afterwards the SAME decoder is reset with a known-good frame and must decode it; plus a hostile-dictionary stage (a dictionary that still parses but carries repeat offsets of 0 / beyond its content / huge, damaged entropy tables or a content cut short, used - by id or forced - by a frame built against the honest dictionary whose first sequences use the repeat offsets with and without literals, Repeat-mode tables and treeless literals); oracle: no panic, no crash, per-case deadline (a reproducible overrun is a violation of kind hang), correct reuse; non-trivial = the input passes frame-header parsing and reaches block decoding; distinct by (input, entry) hash. The coverage-guided layer (libFuzzer + ASan + debug assertions over decode_any / decode_struct / dict_any) is run by the check script and reported in the evidence under coverage.fuzz.");
     eng.assume("output is drained with bounded budgets and capped at 64 MiB per case so that legitimate expansion (RLE blocks) cannot be mistaken for a hang; decode_blocks(All) is used only when the frame's block headers bound the output by 64 MiB");
     let tier = eng.tier;
-    let n = eng.tier.pick(60_000, 3_000_000);
+    let n = eng.tier.pick(60_000, 2_000_000);
     eng.run_stage("mutated_frames", n, || case_strategy(tier), check);
-    let nd = eng.tier.pick(10_000, 300_000);
+    let nd = eng.tier.pick(10_000, 200_000);
     eng.run_stage("dictionary_parser", nd, || (dict_strategy(), prop::collection::vec(mutation_strategy(), 0..=4), any::<u16>()), check_dict);
-    let nh = eng.tier.pick(30_000, 1_000_000);
+    let nh = eng.tier.pick(30_000, 600_000);
     eng.run_stage("hostile_dictionaries", nh, hostile_dict_strategy, check_hostile_dict);
     if !eng.has_violation() {
         export_seeds(eng);
